@@ -578,7 +578,7 @@ def check(prog, rep):
     def sorted_value(f, v, depth=0):
         """True / False / None(undecided): is the value a sorted(..., key=natural key) list on every path?"""
         if isinstance(v, ast.Call) and dotted(v.func) == "sorted":
-            return any(k.arg == "key" and src(k.value) in (natname, "lambda v: v._sort_key") for k in v.keywords)
+            return any(k.arg == "key" and (src(k.value).split(".")[-1] == natname or src(k.value) == "lambda v: v._sort_key") for k in v.keywords)
         if depth > 3:
             return None
         if isinstance(v, ast.Name):
